@@ -219,6 +219,9 @@ func c04exec(c *h.Ctx, cs *h.Case) {
 			}
 			obs := c04show(ct.target, rec.Drain())
 			cs.Impl = append(cs.Impl, obs)
+			for _, ch := range rec.RetainedChanged() {
+				cs.Fail("delivered-batch-changed", "a protocol that keeps the batch it was handed sees it change later: "+ch)
+			}
 			// the property's own oracle (independent of the Lean model)
 			me := fmt.Sprintf("%d/%s/%d", ty, tk[3], v)
 			want := me
